@@ -352,7 +352,7 @@ func concreteReturnType(g *ssa.Function) types.Type {
 		if len(ret.Results) != 1 {
 			return nil
 		}
-		v := ret.Results[0]
+		v := retResult(ret, 0)
 		for {
 			if ch, ok := v.(*ssa.ChangeInterface); ok {
 				v = ch.X
